@@ -29,7 +29,15 @@ RULE = ("seeded histories of 5..60 operations on a dict-backed dataset with 1..2
         "apply_filter() with and without force; about a third of the applies happen while a range is "
         "half-set (the apply raises) and the history continues, often by restoring the settings "
         "applied last; while a limit is active 30% of the steps change the qualifying events to a "
-        "different set of the same size (manual swap, shifted range on `index`). After every apply the four arrays are compared "
+        "different set of the same size (manual swap, shifted range on `index`). A quarter of the "
+        "histories put some features on another magnitude / resolution (value = offset + k*step "
+        "with offsets up to 2^40 and steps down to one ulp), so that ranges are narrow relative to "
+        "their bounds. A fifth of the histories visit the other exits of update: polygon filters "
+        "with an axis that is not in the dataset (KeyError), forced names that are no scalar "
+        "features (ValueError), assignments to invalid keys (dropped by the configuration); any "
+        "history may assign `hierarchy parent` and stir NumPy's global generator between "
+        "operations. The outcome of every apply (ok / raises) is judged against a stateless "
+        "criterion of the current settings. After every apply the four arrays are compared "
         "with the Lean model and ds.filter.all with (a) a stateless Python evaluation of "
         "ds.config['filtering'] and (b) a fresh dataset given the same settings. distinct = "
         "distinct histories with >= 2 successful applies and a range change/removal or polygon "
@@ -44,18 +52,30 @@ TRUSTED_BASE = [
     "dclab's own points_in_poly for every polygon and hands the table to the model",
     "np.random.choice (seed 47) is recorded while dclab runs, checked for ChoiceOK and handed "
     "to the model",
-    "headline theorem assumes ValidHist: polygon filters in the settings have their axes in "
-    "the dataset (otherwise update raises a KeyError that is not modelled); applies that raise "
-    "because a range is half-set are part of the histories (F25 fixed by fix-F25)",
+    "all exits of Filter.update are modelled (updateX): the headline theorem "
+    "all_histories_refine_spec has no guard on the history for the repaired code (fix-F73: "
+    "polygon axes validated before anything is recomputed); for the code as found it holds "
+    "under ValidHistX (today_refines_spec_partial; polygon_keyerror_witness shows the guard is "
+    "needed - candidate finding F73). The harness probes which revision is under test, tells "
+    "the driver (`mode pk`), and on the code as found reports F73 as KNOWN-FINDING instead of "
+    "judging `all` between a KeyError apply and the next reset_filter()",
+    "the exception class of a raising apply (ValueError / KeyError) is compared as a NOTE "
+    "only; whether an apply raises is judged",
+    "NumPy's global generator is modelled as an abstract state machine `Rng` (seed47, draw); "
+    "that RandomState(47) is the same state on every call is NumPy's contract",
 ]
 ASSUMPTIONS = ["range bounds are not NaN", "polygon filter ids in the settings are registered "
-               "instances whose axes exist in the dataset", "forced feature names are valid "
-               "scalar feature names", "the set of features and the number of events of the "
+               "instances (PolygonFilter.get_instance_from_id does not raise)",
+               "the set of features and the number of events of the "
                "dataset do not change during a history"]
-NOT_PROVED = ["KeyError path of update (polygon filter whose axes are missing from the dataset) and "
-              "ValueError for unknown forced feature names: outside the model",
-              "pip is a parameter (C15 covers containment); md5 injectivity",
-              "hierarchy children (property C04) and the 'hierarchy parent' key"]
+NOT_PROVED = ["pip is a parameter (C15 covers containment); md5 injectivity",
+              "hierarchy children: how a child's filter is derived from its parent is property "
+              "C04; here only that the key 'hierarchy parent' never influences the filter "
+              "(parent_key_ignored)",
+              "polygon filter ids whose instance was removed from the registry "
+              "(get_instance_from_id raises KeyError in _init_rtdc_ds): outside the model",
+              "code as found (without fix-F73): the refinement theorem needs the guard ValidHistX "
+              "(today_refines_spec_partial)"]
 
 #: alphabetical, so that np.unique's order of feature names is the order of the ids
 FEATS = ["area_cvx", "area_msd", "area_ratio", "area_um", "aspect", "bright_avg", "deform",
@@ -64,6 +84,20 @@ assert FEATS == sorted(FEATS)
 PRESENT_POOL = ["area_cvx", "area_msd", "area_um", "aspect", "bright_avg", "deform", "pos_x"]
 ABSENT = ["fl1_max", "tilt"]
 FID = {f: i for i, f in enumerate(FEATS)}
+#: names that are no scalar features (ids >= 100; `known f = f < 100` in the driver): forcing
+#: one of them makes apply_filter raise ValueError before anything is recomputed
+UNKNOWN = {100: "peter", 101: "image", 102: "area_um min", 103: ""}
+#: values of the one [filtering] key Filter.update ignores
+PARENTS = ["none", "abc", "xyz-123", "0"]
+#: keys that are no valid [filtering] keys: the configuration drops the assignment
+BADKEYS = ["peter min", "image max", "foo", "area_um mid"]
+#: candidate finding F73 (number chosen by the C03 unit): a KeyError out of the polygon loop
+#: (polygon filter whose axes are not in the dataset) leaves recomputed box filters behind
+PK_FINDING = "F73"
+
+
+def fname(i):
+    return FEATS[i] if i < 100 else UNKNOWN[i]
 
 #: computed (ancillary) scalar features a dataset offers without the harness having touched them:
 #:   area_ratio  (rapid ancillary)      <- area_cvx, area_msd      (0/0 = nan, x/0 = inf)
@@ -131,18 +165,34 @@ def untok(t):
 
 
 # --------------------------------------------------------------------------------------------
-def gen_value(rng, thorough):
+#: magnitude / resolution profiles (offset, step) of a feature: value = offset + k * step.  Real
+#: features live on very different scales (frame numbers ~1e5..1e6, time in seconds with
+#: sub-millisecond steps, deformation ~1e-2, volumes ~1e3); a range may be arbitrarily narrow
+#: relative to the magnitude of its bounds (down to neighbouring floats) and must still select
+#: exactly the events inside it.  The small-integer grid alone (offset 0, step 1) cannot tell an
+#: exact comparison from one with a relative/absolute tolerance or a reduced precision.
+PROFILES = [(250000.0, 1.0), (1800.0, 2.0 ** -7), (0.0, 2.0 ** -30), (2.0 ** 40, 1.0),
+            (1.0, 2.0 ** -52), (-100000.0, 1.0), (1.0e6, 0.5), (3.0e-3, 2.0 ** -40)]
+
+
+def scaled(v, prof):
+    if prof is None or math.isnan(v) or math.isinf(v):
+        return v
+    return prof[0] + v * prof[1]
+
+
+def gen_value(rng, thorough, prof=None):
     r = rng.random()
     if r < 0.08:
         return math.nan
     if r < 0.13:
         return rng.choice([math.inf, -math.inf])
     if thorough and r < 0.3:
-        return rng.randint(-16, 48) / 8.0
-    return float(rng.randint(0, 5))
+        return scaled(rng.randint(-16, 48) / 8.0, prof)
+    return scaled(float(rng.randint(0, 5)), prof)
 
 
-def gen_bound(rng, thorough, vals=None):
+def gen_bound(rng, thorough, vals=None, prof=None):
     r = rng.random()
     if vals and rng.random() < 0.35:          # tie with a value of the data
         v = untok(rng.choice(vals))
@@ -151,8 +201,8 @@ def gen_bound(rng, thorough, vals=None):
     if r < 0.06:
         return rng.choice([math.inf, -math.inf])
     if thorough and r < 0.2:
-        return rng.randint(-16, 48) / 8.0
-    return float(rng.randint(-1, 6))
+        return scaled(rng.randint(-16, 48) / 8.0, prof)
+    return scaled(float(rng.randint(-1, 6)), prof)
 
 
 def gen_history(rng, thorough, emod=False):
@@ -160,7 +210,13 @@ def gen_history(rng, thorough, emod=False):
     present = sorted(rng.sample(PRESENT_POOL, rng.randint(2, len(PRESENT_POOL))))
     if emod:
         present = sorted(set(present) | {"area_um", "deform"})
-    data = {f: [tok(gen_value(rng, thorough)) for _ in range(n)] for f in present}
+    # a quarter of the histories: some features live on another magnitude / resolution
+    prof = {}
+    if not emod and rng.random() < 0.25:
+        for f in present:
+            if rng.random() < 0.6:
+                prof[f] = rng.choice(PROFILES)
+    data = {f: [tok(gen_value(rng, thorough, prof.get(f))) for _ in range(n)] for f in present}
     if emod:        # realistic values: partly inside, partly outside the look-up table
         data["area_um"] = [tok(rng.choice([30.0, 60.0, 120.0, 250.0, 400.0, math.nan]))
                            for _ in range(n)]
@@ -169,6 +225,10 @@ def gen_history(rng, thorough, emod=False):
     axes_pool = present + ["index"] + anc
     filterable = present + ["index"] + anc + ABSENT
     nops = rng.randint(5, 14) if emod else rng.randint(5, 60)
+    # a fifth of the histories visit the other exits of update: polygon filters whose axes are
+    # not in the dataset (KeyError), forced names that are no scalar features (ValueError),
+    # assignments to invalid keys
+    errp = (not emod) and rng.random() < 0.2
     ops = []
     if anc and rng.random() < 0.5:
         ops.append(("invalid", 1))
@@ -209,19 +269,48 @@ def gen_history(rng, thorough, emod=False):
     def half_set():
         return [f for f in filterable if ((f, 0) in keys) != ((f, 1) in keys)]
 
+    def bad_active():
+        return sorted({pid for pid in active if pid in polys
+                       and (polys[pid][0] in ABSENT or polys[pid][1] in ABSENT)})
+
+    def repair_polys():
+        """make the settings acceptable again: remove the offending polygon filters from the
+        settings or give them axes the dataset has"""
+        for pid in bad_active():
+            if rng.random() < 0.6:
+                while pid in active:
+                    active.remove(pid)
+                    ops.append(("polyrm", pid))
+            else:
+                ax, ay = rng.sample(axes_pool, 2)
+                polys[pid][0], polys[pid][1] = ax, ay
+                ops.append(("polyaxes", pid, FID[ax], FID[ay]))
+
     while len(ops) < nops:
         r = rng.random()
         if limit > 0 and rng.random() < 0.3:
             ops += eqcard()
             if not half_set():
                 ops.append(("apply", []))
-                applied = dict(keys)
+                if not bad_active():
+                    applied = dict(keys)
+            continue
+        r3 = rng.random()
+        if r3 < 0.03:
+            ops.append(("parent", rng.randrange(len(PARENTS))))
+            continue
+        if r3 < 0.06:       # other code uses NumPy's global generator
+            ops.append(("stir", rng.randrange(10 ** 6)))
+            continue
+        if errp and r3 < 0.09:
+            ops.append(("badkey", rng.randrange(len(BADKEYS))))
             continue
         if r < 0.30:
             f = rng.choice(filterable if rng.random() < 0.85 else present)
-            v = gen_bound(rng, thorough, data.get(f))
+            v = gen_bound(rng, thorough, data.get(f), prof.get(f))
             if rng.random() < 0.8:      # both keys
-                w = v if rng.random() < 0.12 else gen_bound(rng, thorough, data.get(f))
+                w = v if rng.random() < 0.12 else gen_bound(rng, thorough, data.get(f),
+                                                            prof.get(f))
                 ops.append(("set", FID[f], 0, tok(v)))
                 ops.append(("set", FID[f], 1, tok(w)))
                 keys[(f, 0)], keys[(f, 1)] = tok(v), tok(w)
@@ -251,6 +340,8 @@ def gen_history(rng, thorough, emod=False):
                     else:
                         k = rng.randint(0, 1)
                         cur[k] = rng.choice([f for f in axes_pool if f != cur[1 - k]])
+                        if errp and rng.random() < 0.3:
+                            cur[k] = rng.choice(ABSENT)
                     ops.append(("polyaxes", pid, FID[cur[0]], FID[cur[1]]))
                 elif r2 < 0.75:
                     cur[2] = rng.randrange(len(SHAPES))
@@ -260,6 +351,11 @@ def gen_history(rng, thorough, emod=False):
                     ops.append(("polyinv", pid, cur[3]))
             else:
                 ax, ay = rng.sample(axes_pool, 2)
+                if errp and rng.random() < 0.3:
+                    if rng.random() < 0.5:
+                        ax = rng.choice(ABSENT)
+                    else:
+                        ay = rng.choice(ABSENT)
                 polys[pid] = [ax, ay, rng.randrange(len(SHAPES)), int(rng.random() < 0.3)]
                 ops.append(("polyset", pid, FID[ax], FID[ay], polys[pid][2], polys[pid][3]))
         elif r < 0.56:
@@ -299,7 +395,7 @@ def gen_history(rng, thorough, emod=False):
                 for f in hs:           # complete or drop the half-set ranges first
                     if rng.random() < 0.5:
                         mx = 0 if (f, 1) in keys else 1
-                        v = tok(gen_bound(rng, thorough, data.get(f)))
+                        v = tok(gen_bound(rng, thorough, data.get(f), prof.get(f)))
                         ops.append(("set", FID[f], mx, v))
                         keys[(f, mx)] = v
                     else:
@@ -310,25 +406,32 @@ def gen_history(rng, thorough, emod=False):
             force = []
             if rng.random() < 0.15:
                 force = sorted({FID[rng.choice(filterable)] for _ in range(rng.randint(1, 2))})
+            if errp and rng.random() < 0.15:
+                force = sorted(set(force) | {rng.choice(sorted(UNKNOWN))})
             ops.append(("apply", force))
-            if not hs:
+            raised = bool(hs) or bool(bad_active()) or any(f >= 100 for f in force)
+            if not raised:
                 applied = dict(keys)
             elif rng.random() < 0.6:
-                # the apply raised: go back to the settings applied last (F25 pattern) ...
+                # the apply raised: go back to the settings applied last (F25 / F73 pattern) ...
                 for key in sorted(set(keys) | set(applied)):
                     if key in applied and keys.get(key) != applied[key]:
                         ops.append(("set", FID[key[0]], key[1], applied[key]))
                     elif key not in applied:
                         ops.append(("pop", FID[key[0]], key[1]))
                 keys = dict(applied)
+                repair_polys()
                 if rng.random() < 0.7:      # ... and apply again
                     ops.append(("apply", []))
     if not ops or ops[-1][0] != "apply":
         if not half_set():
+            repair_polys()
             ops.append(("apply", []))
     case = {"n": n, "data": data, "ops": [list(o) for o in ops]}
     if emod:
         case["emod"] = True
+    if prof:
+        case["profile"] = {f: list(v) for f, v in sorted(prof.items())}
     return case
 
 
@@ -412,6 +515,16 @@ class Impl:
                 self.pf[op[1]].inverted = bool(op[2])
             elif kind == "access":
                 ds[FEATS[op[1]]][:]
+            elif kind == "parent":
+                cfg["hierarchy parent"] = PARENTS[op[1]]
+            elif kind == "stir":
+                np.random.seed(op[1] % (2 ** 32))
+                np.random.random(op[1] % 7)
+            elif kind == "badkey":
+                import warnings
+                with warnings.catch_warnings():
+                    warnings.simplefilter("ignore")
+                    cfg[BADKEYS[op[1]]] = 3.0
             elif kind == "polyadd":
                 ds.polygon_filter_add(self.pf[op[1]])
             elif kind == "polyrm":
@@ -428,7 +541,7 @@ class Impl:
             elif kind == "reset":
                 ds.reset_filter()
             elif kind == "apply":
-                force = [FEATS[i] for i in op[1]]
+                force = [fname(i) for i in op[1]]
                 if rec is not None:
                     with rec:
                         ds.apply_filter(force=force)
@@ -491,20 +604,61 @@ class Impl:
         return np.array(ds2.filter.all, dtype=bool)
 
 
+_PK = {}
+
+
+def pk_fixed():
+    """Which revision of `Filter.update` is under test?  Replays the recorded F73 history once
+    per process, judged by the property's own oracle: True = a KeyError out of an apply leaves no
+    recomputed box filter behind (fix-F73 present)."""
+    if "fixed" not in _PK:
+        _PK["fixed"] = True          # judge the probe at full strength
+        try:
+            fails = run_impl(F73_HISTORY, want_lines=False)[3]
+            last = len(F73_HISTORY["ops"]) - 1
+            # only the recorded pattern (everything fine up to the KeyError, the last apply
+            # wrong) selects the mirror of the code as found; anything else: full strength
+            _PK["fixed"] = not (fails and all(i == last for i, _t in fails))
+        except Exception:  # noqa  (cannot tell: full strength)
+            _PK["fixed"] = True
+    return _PK["fixed"]
+
+
+def expected_outcome(im, op):
+    """stateless: what must `apply_filter(force)` do at the current settings?"""
+    cfg = im.ds.config["filtering"]
+    if any(i >= 100 for i in op[1]):
+        return "err:value"
+    if any((f + " min" in cfg) != (f + " max" in cfg) for f in FEATS):
+        return "err:value"
+    feats = set(im.ds.features_scalar)
+    for pid in cfg["polygon filters"]:
+        if any(ax not in feats for ax in im.PF.get_instance_from_id(pid).axes):
+            return "err:key"
+    return "ok"
+
+
 def run_impl(case, want_lines=True):
     """drive the real code; returns (answers, model lines, line index of each op's answer,
-    spec failures [(op index, text)], recorder problems)"""
+    spec failures [(op index, text)], recorder problems, known = {"seen": an apply raised
+    KeyError on the code without fix-F73, "skip": the applies between such an apply and the next
+    reset_filter(), "fails": spec failures of those applies (the recorded finding), "notes"})"""
     im = Impl(case)
     rec = ChoiceRecorder()
     sent = set()
     lines, slots = [], []
+    fixed = pk_fixed()
+    known = {"taint": None, "skip": set(), "seen": False, "fails": [], "notes": []}
+    strict = []
+    present_feats = set(im.features())
     if want_lines:
+        lines.append(f"mode pk {int(fixed)}")
         lines.append(f"new {im.n}")
         for feat in im.features():
             if feat not in FID:
                 raise RuntimeError(f"unexpected scalar feature {feat}")
             lines.append(f"col {FID[feat]} " + " ".join(tok(x) for x in im.column(feat)))
-    answers, specfail = [], []
+    answers, specfail = [], strict
     pip_sent = set()
     content = {}          # pid -> [ax, ay, shape] currently registered
     for i, op in enumerate(case["ops"]):
@@ -519,14 +673,15 @@ def run_impl(case, want_lines=True):
                 cur = [cur[0], cur[1], op[2]]
             content[op[1]] = cur
             key = (cur[2], cur[0], cur[1])
-            if want_lines and key not in pip_sent:
+            if want_lines and key not in pip_sent and FEATS[cur[0]] in present_feats \
+                    and FEATS[cur[1]] in present_feats:
                 pip_sent.add(key)
                 lines.append(f"pip {key[0]} {key[1]} {key[2]} " + bits(im.pip_bits(*key)))
         ans = im.do(op, rec)
         answers.append(ans)
         if want_lines:
             lines += rec.lines(sent)
-            if op[0] == "access":
+            if op[0] in ("access", "badkey"):
                 slots.append(None)
                 continue
             if op[0] == "set":
@@ -536,13 +691,30 @@ def run_impl(case, want_lines=True):
             else:
                 lines.append(" ".join(str(x) for x in op))
             slots.append(len(lines) - 1)
+        if op[0] == "reset":
+            known["taint"] = None          # reset() drops caches and remembered settings
         if op[0] == "apply":
-            if not ans.startswith("ok"):
-                cfg = im.ds.config["filtering"]
-                half = [f for f in FEATS if (f + " min" in cfg) != (f + " max" in cfg)]
-                if not (ans.startswith("err:value") and half):
-                    specfail.append((i, f"apply_filter raised ({ans.split(' ')[0]}) although every "
-                                        f"range of the current settings has both keys"))
+            specfail = strict if known["taint"] is None else known["fails"]
+            if known["taint"] is not None:
+                known["skip"].add(i)
+            try:
+                want = expected_outcome(im, op)
+            except Exception as e:  # noqa
+                specfail.append((i, f"reference evaluation impossible: {e!r}"[:160]))
+                continue
+            cls = ans.split(" ")[0]
+            if (cls == "ok") != (want == "ok"):
+                specfail.append((i, f"apply_filter answered {cls} where the current settings "
+                                    f"(ranges complete? polygon axes present? forced names "
+                                    f"valid?) specify {want}"))
+                continue
+            if cls != want:
+                known["notes"].append(f"apply_filter raises {cls} where the model says {want} "
+                                      f"(exception class only: not judged)")
+            if cls != "ok":
+                if want == "err:key" and not fixed and known["taint"] is None:
+                    known["taint"] = i
+                    known["seen"] = True
                 continue
             try:
                 pre, limit = im.reference()
@@ -570,20 +742,27 @@ def run_impl(case, want_lines=True):
                                             f"the same settings gives {bits(fresh)}"))
             except Exception as e:  # noqa
                 specfail.append((i, f"reference evaluation impossible: {e!r}"[:160]))
-    return answers, lines, slots, specfail, rec.bad
+    return answers, lines, slots, strict, rec.bad, known
 
 
-def compare(case, answers, model_out, slots):
+def compare(case, answers, model_out, slots, skip=()):
     """first disagreement between the implementation and the model (impl mirror, and the model's
-    stateless `specApply`: bits of `all`, or `raise`), or None"""
+    stateless `specApplyX`: bits of `all`, or `raise`), or None.  On the code without fix-F73 the
+    stateless part is not compared for the applies between a KeyError apply and the next reset
+    (`skip`; recorded finding – the mirror `updateX false` is still compared bit by bit)."""
     for i, op in enumerate(case["ops"]):
         if slots[i] is None:
             continue
         m = model_out[slots[i]].strip()
         m_impl = m.split(" ## ")[0].strip()
-        if m_impl != answers[i].strip():
+        a_impl = answers[i].strip()
+        if op[0] == "apply" and m_impl.startswith("err:") and a_impl.startswith("err:"):
+            # the exception class is not part of the property (a NOTE is recorded elsewhere)
+            m_impl = "err " + m_impl.split(" ", 1)[1]
+            a_impl = "err " + a_impl.split(" ", 1)[1]
+        if m_impl != a_impl:
             return i, f"op {i} {op}: impl '{answers[i][:70]}' model '{m_impl[:70]}'"
-        if op[0] == "apply":
+        if op[0] == "apply" and i not in skip:
             spec_ans = m.split(" ## ")[1].strip() if " ## " in m else ""
             if answers[i].startswith("ok"):
                 got = answers[i].split(" all=")[1].split(" ")[0] if " all=" in answers[i] else ""
@@ -651,6 +830,16 @@ F25_HISTORY = {"n": 5, "data": {"area_um": ["0", "1", "3", "2", "4"], "deform": 
                        ["pop", FID["deform"], 0], ["apply", []]]}
 
 
+#: F73: a KeyError out of the polygon loop must not leave recomputed box filters behind
+F73_HISTORY = {"n": 5, "data": {"area_um": ["0", "1", "3", "2", "4"], "deform": ["5", "6", "7", "0", "1"]},
+               "ops": [["set", FID["area_um"], 0, "1"], ["set", FID["area_um"], 1, "2"], ["apply", []],
+                       ["set", FID["area_um"], 0, "3"], ["set", FID["area_um"], 1, "4"],
+                       ["polyset", 0, FID["area_um"], FID["fl1_max"], 2, 0], ["polyadd", 0],
+                       ["apply", []], ["polyrm", 0],
+                       ["set", FID["area_um"], 0, "1"], ["set", FID["area_um"], 1, "2"],
+                       ["apply", []]]}
+
+
 # ---- recorded histories: replayed first on every run ------------------------------------------
 def builtin_corpus():
     a, d = FID["area_um"], FID["deform"]
@@ -669,7 +858,12 @@ def builtin_corpus():
     emo = {"n": 4, "emod": True, "data": {"area_um": ["60", "120", "400", "120"],
                                           "deform": ["1/50", "1/50", "1/50", "3/10"]},
            "ops": [["invalid", 1], ["apply", []], ["access", FID["emodulus"]], ["apply", []]]}
-    return [f03, F25_HISTORY, mixed, anc, emo]
+    exits = {"n": 5, "data": data, "ops": [
+        ["set", a, 0, "1"], ["set", a, 1, "2"], ["apply", [100]], ["apply", [a]],
+        ["parent", 1], ["apply", []], ["badkey", 0], ["apply", []], ["set", d, 1, "6"],
+        ["apply", [101]], ["apply", []], ["pop", d, 1], ["limit", 2], ["stir", 12345], ["apply", []],
+        ["stir", 99], ["apply", []], ["reset"], ["apply", []]]}
+    return [f03, F25_HISTORY, F73_HISTORY, mixed, anc, emo, exits]
 
 
 def exhaustive_cases(max_len=4):
@@ -704,6 +898,12 @@ def exhaustive_cases(max_len=4):
 
 def run(ctx):
     common.import_dclab()
+    if not pk_fixed():
+        ctx.known(PK_FINDING, "recorded history: range applied, range changed + polygon filter with "
+                  "an axis missing from the dataset -> KeyError, settings restored, apply: "
+                  "ds.filter.all is the one of the settings that raised (fix-F73 not applied; the "
+                  "model runs as `updateX false`)")
+    ctx.stat("pk_fixed=" + str(pk_fixed()))
     cases = builtin_corpus()
     corpus = common.VERIF / "corpus" / "C03"
     if corpus.exists():
@@ -721,7 +921,7 @@ def run(ctx):
     model = None
     if ctx.lean_ok:
         lines, spans = [], []
-        for (_a, ml, _s, _f, _b) in impl:
+        for (_a, ml, _s, _f, _b, _k) in impl:
             spans.append((len(lines), len(lines) + len(ml)))
             lines += ml
         out = ctx.lean("C03", lines)
@@ -729,12 +929,24 @@ def run(ctx):
     mirror_bad = []
     reported = 0
     for idx, c in enumerate(cases):
-        answers, _ml, slots, specfail, recbad = impl[idx]
+        answers, _ml, slots, specfail, recbad, known = impl[idx]
+        for nt_ in known["notes"]:
+            ctx.note(nt_)
+        if known["seen"]:
+            ctx.stat("history_with_F73_keyerror")
+        if known["fails"]:
+            ctx.stat("F73_deviation_seen")
+            ctx.known(PK_FINDING, "a KeyError out of apply_filter (polygon filter whose axes are "
+                      "not in the dataset) leaves recomputed box filters behind; a later apply at "
+                      "the restored settings yields a wrong ds.filter.all: "
+                      + known["fails"][0][1][:120])
         nt = nontrivial(c, answers)
         ctx.case((c["n"], sorted(c["data"].items()), c["ops"]), nontrivial=nt,
                  sample={"n": c["n"], "features": sorted(c["data"]), "ops": c["ops"][:14],
                          "impl": answers[:14]} if nt else None)
         ctx.stat("ops", len(c["ops"]))
+        if c.get("profile"):
+            ctx.stat("scaled_history")
         for o, a in zip(c["ops"], answers):
             ctx.stat("op=" + o[0])
             if not a.startswith("ok"):
@@ -749,7 +961,7 @@ def run(ctx):
                 reported += 1
             continue
         if model is not None:
-            d = compare(c, answers, model[idx], slots)
+            d = compare(c, answers, model[idx], slots, known["skip"])
             if d is not None:
                 mirror_bad.append((c, d))
     if mirror_bad:          # (without Lean the loop above already ran with the 10x budget)
@@ -778,8 +990,10 @@ def replay(ctx, data):
     if "ops" not in case:
         print("no concrete input in this replay file:", json.dumps(rp)[:300])
         return True
-    answers, _l, _s, specfail, _b = run_impl(case, want_lines=False)
+    answers, _l, _s, specfail, _b, known = run_impl(case, want_lines=False)
     for o, a in zip(case["ops"], answers):
         print(o, "->", a)
     print("specfail:", specfail)
+    if known["fails"]:
+        print(f"recorded finding {PK_FINDING}:", known["fails"])
     return bool(specfail)
